@@ -25,6 +25,9 @@ func Compile(root *Module) error {
 type compiler struct {
 	root *Module
 	pool map[HasDefinitions]struct{}
+
+	// typedefs being compiled, to detect a typedef that is defined in terms of itself
+	typedefsInProgress map[*Typedef]struct{}
 }
 
 func (c *compiler) module(y *Module) error {
@@ -399,6 +402,14 @@ func (c *compiler) findTypedef(y *Type, parent Definition, qualifiedIdent string
 	}
 
 	// this will recurse if typedef references another typedef
+	if _, circular := c.typedefsInProgress[found]; circular {
+		return nil, errors.New(SchemaPath(parent) + " - typedef " + y.ident + " is defined in terms of itself")
+	}
+	if c.typedefsInProgress == nil {
+		c.typedefsInProgress = make(map[*Typedef]struct{})
+	}
+	c.typedefsInProgress[found] = struct{}{}
+	defer delete(c.typedefsInProgress, found)
 	if err := c.compile(found); err != nil {
 		return nil, err
 	}
